@@ -251,6 +251,9 @@ def _veh_shard(shard) -> Dict[str, Any]:
     findings = {}
     n = 0
     samples = []
+    import collections
+
+    sweep_cov = collections.Counter()
     for dt, throttle in itertools.product(DTS, (1.0, 0.24)):
         cfg = make_config(step=dt)
         env = Environment(config=cfg, mechatronics=immutables.Map(mt), chargers=ct, reporter=CapturingReporter())
@@ -325,7 +328,60 @@ def _veh_shard(shard) -> Dict[str, Any]:
                     findings.setdefault(("not_lowered", m.__class__.__name__, "Idle.update"), (f"{mech_id}: idling {dt} s left the level at {b.energy[et]}", {"dt": dt, "level": lname}))
                 if abs((b.energy_expended[et] - a.energy_expended[et]) - (a.energy[et] - b.energy[et])) > 1e-9:
                     findings.setdefault(("expenditure_booked", m.__class__.__name__, "Idle.update"), (f"{mech_id}: idle expenditure not booked consistently", {"dt": dt, "level": lname}))
-    return {"ops": n, "findings": [(list(k), msg, dict(rp, mechatronics=mech_id, vehicle_level=True)) for k, (msg, rp) in findings.items()], "samples": samples}
+    # -- a vehicle that lacks the energy for its next movement stops: levels swept around the need of ONE step's stretch, on
+    #    slow, ordinary and fast roads (the consumption tables depend on speed; the nominal range rating does not)
+    for dt, kmph in itertools.product((30, 60, 61, 600), SWEEP_SPEEDS):
+        cfg = make_config(step=dt)
+        env = Environment(config=cfg, mechatronics=immutables.Map(mt), chargers=ct, reporter=CapturingReporter())
+        rn = _speed_network(kmph)
+        v_ref = mk_vehicle(m, mech_id, 0.5 * cap).modify_position(rn.position_from_geoid(S["A"]))
+        unit_per_km = (0.5 * cap) / m.range_remaining_km(v_ref)  # nominal rating
+        for dest in ("M1", "F1"):
+            route = rn.route(v_ref.position, rn.position_from_geoid(S[dest]))
+            stretch_km = min(kmph * dt / 3600.0, sum(l.distance_km for l in route))
+            nominal = unit_per_km * stretch_km
+            for f in SWEEP_FACTORS:
+                lvl = min(cap, nominal * f)
+                v = mk_vehicle(m, mech_id, lvl).modify_position(rn.position_from_geoid(S["A"]))
+                vs = DispatchStation.build("v0", "s0", route, "DCFC")
+                sim = build_sim(env, rn, vehicles=(v.modify_vehicle_state(vs),))
+                env.reporter.take()
+                err, s2 = vehicle_state_ops.move(sim, env, "v0")
+                n += 1
+                rp = {"dt": dt, "speed_kmph": kmph, "dest": dest, "level_factor_of_nominal_need": f, "sweep": True}
+                if err is not None or s2 is None:
+                    findings.setdefault(("move_error", m.__class__.__name__, "sweep"), (f"{mech_id}: move() failed: {err}", rp))
+                    continue
+                a, b = sim.vehicles["v0"], s2.vehicles["v0"]
+                moved = b.geoid != a.geoid or b.distance_traveled_km > a.distance_traveled_km
+                oos = b.vehicle_state.__class__.__name__ == "OutOfService"
+                sweep_cov["oos" if oos else "moved" if moved else "stayed"] += 1
+                if moved and b.energy[et] <= 0 and not oos:
+                    findings.setdefault(("moved_on_empty", m.__class__.__name__, "sweep", _speed_class(kmph)), (f"{mech_id}: with {lvl:.6f} on board ({f} x the nominal need of the stretch) at {kmph} km/h the vehicle moved on and ended the step empty, still {b.vehicle_state.__class__.__name__}", rp))
+                if oos and moved:
+                    findings.setdefault(("moved_without_energy", m.__class__.__name__, "sweep", _speed_class(kmph)), (f"{mech_id}: out of service but moved", rp))
+                if moved and not oos and not (a.energy[et] - b.energy[et]) > 0:
+                    findings.setdefault(("not_lowered", m.__class__.__name__, "sweep", _speed_class(kmph)), (f"{mech_id}: moved and expended nothing", rp))
+                if b.energy[et] < -EPS:
+                    findings.setdefault(("range", m.__class__.__name__, "sweep"), (f"{mech_id}: level {b.energy[et]} after moving", rp))
+    return {"ops": n, "sweep": dict(sweep_cov), "findings": [(list(k), msg, dict(rp, mechatronics=mech_id, vehicle_level=True)) for k, (msg, rp) in findings.items()], "samples": samples}
+
+
+SWEEP_SPEEDS = (8, 25, 40, 70, 100)
+SWEEP_FACTORS = (0.25, 0.5, 0.75, 0.9, 0.95, 1.0, 1.02, 1.05, 1.1, 1.15, 1.2, 1.3, 1.4, 1.5, 1.75, 2.0, 3.0)
+
+
+def _speed_class(kmph) -> str:
+    return "slow" if kmph < 32 else "fast" if kmph > 64 else "ordinary"
+
+
+def _speed_network(kmph):
+    from nrel.hive.model.roadnetwork.haversine_roadnetwork import HaversineRoadNetwork
+
+    class _Net(HaversineRoadNetwork):
+        _AVG_SPEED_KMPH = kmph
+
+    return _Net(sim_h3_resolution=15)
 
 
 def c04_enum(c: Check):
@@ -350,8 +406,15 @@ def c04_enum(c: Check):
     cov["rule"] = (
         f"BFS over all sequences of <= {depth} operations from {len(ops_alphabet())} (drive x3 routes, idle x4 durations, charge x3 plugs x8 durations incl. "
         "shorter than / equal to / not a multiple of the 60 s curve slice) for 4 mechatronics x 5 initial levels, deduplicated on the (level, gained, expended) ledger; "
-        "plus one-step vehicle-level checks (charge / move / Idle.update) for the 8 step lengths; non-trivial = distinct (level, op) whose op changed the level"
+        "plus one-step vehicle-level checks (charge / move / Idle.update) for the 8 step lengths and a sweep of 17 levels around the nominal need of one step's stretch on 5 road speeds (slow / ordinary / fast: the consumption tables depend on speed); non-trivial = distinct (level, op) whose op changed the level"
     )
+    sweep = {}
+    for r in vres:
+        for k, v in r.get("sweep", {}).items():
+            sweep[k] = sweep.get(k, 0) + v
+    cov["one_step_need_sweep"] = dict(sweep, speeds_kmph=list(SWEEP_SPEEDS), level_factors_of_nominal_need=list(SWEEP_FACTORS), step_lengths=[30, 60, 61, 600])
+    if not (sweep.get("oos") and sweep.get("moved")):
+        c.vacuous.append("c04:need_sweep: the level sweep around one step's need never produced both outcomes (moved / out of service)")
     cov["enum_ledger_states"] = states
     cov["enum_operations"] = nops
     cov.setdefault("samples", [])
